@@ -19,17 +19,16 @@ structure Key where
   pub : Point
   deriving Repr, Inhabited
 
+/-- The key of amount `2^j`: private key at child `j'` of the keyset key, and its public key. -/
+def keyAt (M : Nat → Point → Point) (ks : XPrv) (j : Nat) : Option Key :=
+  (ckdPriv M ks (hardened j)).map (fun c => ⟨2 ^ j, c.key, M c.key G⟩)
+
 def keysFrom (M : Nat → Point → Point) (ks : XPrv) : List Nat → Option (List Key)
   | [] => some []
-  | j :: rest =>
-    match ckdPriv M ks (hardened j), keysFrom M ks rest with
-    | some c, some tl => some (⟨2 ^ j, c.key, M c.key G⟩ :: tl)
-    | _, _ => none
+  | j :: rest => (keyAt M ks j).bind (fun k => (keysFrom M ks rest).map (fun tl => k :: tl))
 
 def mintKeys (M : Nat → Point → Point) (seed : Bytes) (idx : Nat) : Option (List Key) :=
-  match fromSeed M seed (keysetPath idx) with
-  | some ks => keysFrom M ks (List.range maxOrder)
-  | none => none
+  (fromSeed M seed (keysetPath idx)).bind (fun ks => keysFrom M ks (List.range maxOrder))
 
 def keysetIdOf (keys : List Key) : Option String :=
   KeysetId.keysetIdOfPoints (keys.map (fun k => (k.amount, k.pub)))
